@@ -39,8 +39,17 @@ func genRetCase(e *Env) *jRetCase {
 	n := 15 + r.Intn(45)
 	flushP := []int{0, 8, 3, 2}[r.Intn(4)] // 1/flushP chance of a flush after each insert
 	cur := baseSec * int64(time.Second)
+	// few distinct keys in most cases, so that one key has data on disk and in memory, long silences
+	// and periods right at the retention boundary
+	var keyPool []jPoint
+	if r.Intn(4) > 0 {
+		keyPool = genDBPoints(r, t, 1+r.Intn(3))
+	}
 	for i := 0; i < n; i++ {
 		p := genDBPoints(r, t, 1)[0]
+		if keyPool != nil {
+			p.Dims = keyPool[r.Intn(len(keyPool))].Dims
+		}
 		switch r.Intn(10) {
 		case 0, 1: // late: back by up to 1.5 x retention
 			back := r.Int63n(t.RetNS*3/2 + 1)
@@ -49,6 +58,9 @@ func genRetCase(e *Env) *jRetCase {
 		case 2: // exactly on / around the retention boundary
 			ns := cur - t.RetNS + int64(r.Intn(3)-1)
 			p.TS = XTime{S: ns / int64(time.Second), NS: ns % int64(time.Second)}
+		case 3: // a silence of almost one retention period, then a point (its key's old data sits at the boundary)
+			cur += t.RetNS - r.Int63n(t.ResNS+1)
+			p.TS = XTime{S: cur / int64(time.Second), NS: cur % int64(time.Second)}
 		default:
 			cur += r.Int63n(3*t.ResNS + 1)
 			if r.Intn(3) == 0 {
